@@ -26,6 +26,14 @@ type c15copy struct {
 	batch, pos int
 	failCheck  bool
 	failProc   bool
+	zeroSize   bool // this run's events report Size() == 0 (an event type of the application's own)
+}
+
+func (c *c15copy) Size() int {
+	if c.zeroSize {
+		return 0
+	}
+	return c.Ev.Size()
 }
 
 type c15log struct {
@@ -73,7 +81,14 @@ func c15Run(c *ev.Ctx, r *rand.Rand, caseN int) {
 		e.SetCreator(plans[0].IDs[0])
 		e.SetSeq(1)
 		e.SetFrame(1)
-		e.SetLamport(idx.Lamport(100000 + r.Intn(1000)))
+		lam := uint32(100000 + r.Intn(1000))
+		switch k % 3 {
+		case 1:
+			lam = 1<<31 + uint32(r.Intn(1000)) // further ahead than a signed 32-bit distance can express
+		case 2:
+			lam = ^uint32(0) - uint32(r.Intn(5))
+		}
+		e.SetLamport(idx.Lamport(lam))
 		e.SetHashID(uint64(9000 + k))
 		e.Name = fmt.Sprintf("far%d", k)
 		all = append(all, e)
@@ -209,7 +224,7 @@ func c15Run(c *ev.Ctx, r *rand.Rand, caseN int) {
 		for j := 0; j < k && i < len(order); j, i = j+1, i+1 {
 			e := all[order[i]]
 			idCount[e.ID()]++
-			b.copies = append(b.copies, &c15copy{Ev: e, batch: len(batches), pos: j, failCheck: r.Intn(12) == 0, failProc: r.Intn(12) == 0})
+			b.copies = append(b.copies, &c15copy{Ev: e, batch: len(batches), pos: j, failCheck: r.Intn(12) == 0, failProc: r.Intn(12) == 0, zeroSize: caseN%7 == 3})
 		}
 		batches = append(batches, b)
 	}
@@ -219,7 +234,7 @@ func c15Run(c *ev.Ctx, r *rand.Rand, caseN int) {
 		for j := 0; j < int(capM.Num)+2; j++ {
 			e := all[r.Intn(nBase)]
 			idCount[e.ID()]++
-			big.copies = append(big.copies, &c15copy{Ev: e, batch: len(batches), pos: j})
+			big.copies = append(big.copies, &c15copy{Ev: e, batch: len(batches), pos: j, zeroSize: caseN%7 == 3})
 		}
 		at := r.Intn(len(batches) + 1)
 		batches = append(batches[:at:at], append([]*c15batch{big}, batches[at:]...)...)
